@@ -190,24 +190,27 @@ Proof.
     assert (cget (<[n:=cget (g_state c) n + v]> (g_state c)) n = cget (g_state c) n + v) as ->
       by (unfold cget at 1; rewrite lookup_insert; reflexivity).
     destruct (g_delta c !! n) as [x|] eqn:E.
-    + destruct (H1 (ex_intro _ x eq_refl)). lia.
-    + specialize (H2 eq_refl). unfold cget. rewrite H2. lia.
+    + destruct (H1 (ex_intro _ x eq_refl)) as [Hle _]. etransitivity; [exact Hle|]. apply N.le_add_r.
+    + specialize (H2 eq_refl). unfold cget. rewrite H2. apply N.le_add_r.
   - rewrite !lookup_insert_ne by congruence. split.
     + intros Hs. destruct (H1 Hs). unfold cget in *. rewrite lookup_insert_ne by congruence. auto.
     + exact H2.
 Qed.
 
+Lemma gjoin_cons d acc : gjoin (d :: acc) = cmax (g_state d) (gjoin acc).
+Proof. reflexivity. Qed.
+
 Lemma g_inv_ship c acc d : g_inv c acc → g_deltaOf c = Some d → g_inv (g_reset c) (d :: acc).
 Proof.
   intros H Hd k. unfold g_deltaOf in Hd. destruct (decide _); [discriminate|]. injection Hd as <-.
-  simpl. split; [rewrite lookup_empty; intros [? [=]]|]. intros _.
-  unfold gjoin; simpl. fold (gjoin acc). rewrite lookup_cmax, map_lookup_imap.
-  specialize (H k). destruct H as [H1 H2].
-  destruct (g_delta c !! k) as [x|] eqn:E; simpl.
-  - destruct (H1 (ex_intro _ x eq_refl)) as [Hle [s Hs]]. rewrite Hs in *. unfold cget in Hle. rewrite Hs in Hle. simpl in Hle.
-    unfold cget. rewrite Hs. simpl.
-    destruct (gjoin acc !! k) eqn:E2; simpl in *; f_equal; lia.
-  - rewrite (H2 eq_refl). destruct (gjoin acc !! k); reflexivity.
+  rewrite gjoin_cons. specialize (H k). destruct H as [H1 H2]. revert H1 H2.
+  generalize (gjoin acc). intros J H1 H2.
+  cbn [g_reset g_delta g_state]. split; [rewrite lookup_empty; intros [? [=]]|]. intros _.
+  rewrite lookup_cmax, map_lookup_imap.
+  destruct (g_delta c !! k) as [x|] eqn:E; cbn [mbind option_bind].
+  - destruct (H1 (ex_intro _ x eq_refl)) as [Hle [s Hs]]. unfold cget in *. rewrite Hs in *. cbn in Hle |- *.
+    destruct (J !! k) eqn:E2; cbn in *; f_equal; lia.
+  - rewrite (H2 eq_refl). destruct (J !! k); reflexivity.
 Qed.
 
 Lemma g_run_inv ops : ∀ c acc, g_inv c acc → g_nowrap c ops →
@@ -274,7 +277,7 @@ Theorem g_delta_converges ops (b : gmap N N) (ds' : list gcounter) :
   (∀ d, d ∈ ds' ↔ d ∈ r.2) →
   joinl cmax b (g_state <$> ds') = cmax b (g_state r.1).
 Proof.
-  intros Hw r Hs. rewrite <- (g_shipped_is_state ops Hw). fold r. unfold gjoin.
+  intros Hw r Hs. pose proof (g_shipped_is_state ops Hw) as E. cbv zeta in E. subst r. rewrite <- E. unfold gjoin.
   rewrite <- joinl_cmax_foldr. apply g_full_state_converges.
   intros y. rewrite !elem_of_list_fmap. split; intros [d [-> Hd]]; exists d; (split; [reflexivity|]); apply Hs; exact Hd.
 Qed.
